@@ -273,6 +273,40 @@ def task_pumped_int():
     return rec.result(worlds=len(worlds))
 
 
+def task_other_types():
+    """values that are neither str nor int: returned unchanged with their type, no exception (concrete, interpreted)"""
+    import decimal, fractions
+    eng = Engine()
+    rec = Recorder(eng)
+    for val in (3.0, 3.5, None, ["mar"], ("mar",), decimal.Decimal(3), fractions.Fraction(5), b"mar", {"m": 1}):
+        worlds = eng.run(drv_one, [val, True])
+        for W in worlds:
+            ok = W.exc is None
+            if ok:
+                for kind in ("int", "abbr", "long"):
+                    st, got = value_of(W.result[kind])
+                    if st != "ok" or got is not val and not (type(got) is type(val) and got == val):
+                        ok = False
+
+            def rp(m, val=val):
+                import logging
+                logging.disable(logging.CRITICAL)
+                for kind in ("int", "abbr", "long"):
+                    e = Entry("article", "k", [Field("month", val)])
+                    try:
+                        MWS[kind](True).transform(Library([e]))
+                    except Exception as ex:  # noqa
+                        from pysym.harness import guard_repo_exception
+                        guard_repo_exception(ex)
+                        return {"input": repr(val), "observed": f"{kind}: raised {type(ex).__name__}: {ex}", "expected": "unchanged"}
+                    got = e.fields[0].value
+                    if type(got) is not type(val) or got != val:
+                        return {"input": repr(val), "observed": f"{kind}: {got!r} ({type(got).__name__})", "expected": "unchanged, same type"}
+                return None
+            rec.require(W, not ok, "other-types-unchanged", rp)
+    return rec.result()
+
+
 def task_int(lo, hi):
     eng = Engine()
     rec = Recorder(eng)
@@ -451,10 +485,12 @@ def main():
         for L1 in (3, 2, 1):
             for L2 in (3, 2, 1):
                 chk.add_task(f"two-{kind}-{L1}+{L2}", task_two, L1=L1, L2=L2, kind=kind)
+    chk.bounds["other value types"] = "3.0, 3.5, None, a list, a tuple, Decimal(3), Fraction(5), bytes, a dict: unchanged with their type"
     chk.bounds["pumped values"] = "every execution path of the numeric family of length 1..2: up to 3 solver witnesses, each replayed on the real code with every character repeated 5000 times (longer than the interpreter's limit for int()); int witnesses scaled to about 10**5000 (beyond the limit for str(int))"
     for L in (2, 1):
         chk.add_task(f"pumped-L{L}", task_pumped, L=L)
     chk.add_task("pumped-int", task_pumped_int)
+    chk.add_task("other-types", task_other_types)
     chk.add_task("int", task_int, lo=ir[0], hi=ir[1])
     chk.add_task("absent", task_absent)
     for ka in MWS:
